@@ -47,6 +47,10 @@ func (i *Ignore) load(rootGoitPath string) error {
 	scanner.Buffer(nil, math.MaxInt)
 	for scanner.Scan() {
 		text := scanner.Text()
+		if text == "" {
+			// an empty line is not an entry (as a pattern it would match every directory)
+			continue
+		}
 		var replacedText string
 		if directoryRegexp.MatchString(text) {
 			replacedText = fmt.Sprintf("%s.*", text)
